@@ -128,6 +128,10 @@ R verify(R const& r)
         // "yields the exact mathematical result": accepted; later steps start from this value
         ctx->t->classes["exact_result_outside_declared_range(info)"]++;
         ctx->nontrivial = true;
+    } else if (ctx->over && ctx->has_model && got == ctx->model) {
+        // the value a recorded defect model predicts came back where an overflow signal was due
+        ctx->t->violation(ctx->hint, Outcome{}, where, "overflow signal (exact " + ctx->want.str() + " e" + std::to_string(er) + ")", got.str() + " e" + std::to_string(er));
+        throw Stop{};
     } else if (ctx->over) {
         ctx->nontrivial = true;
         if (ctx->tags.overflow == 0) {
@@ -297,6 +301,94 @@ template<class A, class B> bool less(A const& a, B const& b)
         throw Stop{};
     }
     return r;
+}
+
+// ++x, x++, --x, x-- on a copy of a (exponent 0 only): the stored value becomes a +- 1 (or the overflow signal), the expression's value is
+// the new value for the prefix forms and the old one for the postfix forms
+template<class A> A incdec(A const& a, int form)
+{
+    static char const* const names[] = {"++x", "x++", "--x", "x--"};
+    begin(names[form], a, a);
+    X an, ad;
+    val(a, an, ad);
+    prepare<A>(form < 2 ? an + ad : an - ad, ad, false);
+    A x = a;
+    X ret;
+    switch (form) {
+    case 0: ret = deepval(++x); break;
+    case 1: ret = deepval(x++); break;
+    case 2: ret = deepval(--x); break;
+    default: ret = deepval(x--); break;
+    }
+    A v = verify(x);
+    X expect_ret = (form == 1 || form == 3) ? deepval(a) : deepval(v);
+    if (ret != expect_ret) {
+        ctx->t->violation(std::string("incdec_expression_value:") + names[form], Outcome{}, "step " + std::to_string(ctx->step) + ": " + ctx->operands, expect_ret.str(), ret.str());
+        throw Stop{};
+    }
+    return v;
+}
+
+// construction from a built-in value (integer or floating): T{b} must hold b rounded to T's resolution by T's rounding mode,
+// or signal overflow when that is outside T's range
+template<class T, class B> T construct(B const& b)
+{
+    ++ctx->step;
+    ctx->opname = "ctor";
+    ctx->hint.clear();
+    ctx->has_model = false;
+    X num, den = X::from_u(1);
+    if constexpr (std::is_floating_point_v<B>) {
+        int e = 0;
+        long double m = frexpl((long double)b, &e);   // b = m * 2^e, |m| in [0.5, 1)
+        long double mi = ldexpl(m, 64);                // exact 64-bit integer mantissa
+        bool neg = mi < 0;
+        u128 mag = (u128)(neg ? -mi : mi);
+        num = X::from_u(mag);
+        if (neg) num = -num;
+        e -= 64;
+        if (e >= 0) num = shl(num, e); else den = shl(den, -e);
+        char buf[64];
+        snprintf(buf, sizeof buf, "%La", (long double)b);
+        ctx->operands = std::string("T{") + buf + "}";
+    } else {
+        num = X::of(b);
+        ctx->operands = "T{" + num.str() + "}";
+    }
+    prepare<T>(num, den, true);
+    // known defect model (KF-C11-05): a built-in integer source carries no rounding tag, the scaling to a coarser resolution truncates toward zero
+    if constexpr (!std::is_floating_point_v<B> && (exp_of<T>::value > 0)) {
+        if (ctx->tags.rounding != 0) {
+            X q = tdiv(num, shl(X::from_u(1), exp_of<T>::value));
+            if (q > ctx->hi || q < ctx->lo) q = ctx->want;  // (the truncated value does not fit either: no model)
+            if (q != ctx->want) { ctx->model = q; ctx->has_model = true; ctx->hint = "ctor_from_builtin_integer_truncates_instead_of_rounding"; }
+        }
+    }
+    ctx->exact_outside_ok = true;   // -2^digits is held exactly by the representation: accepted here, later steps start from it
+    auto r = T{b};
+    auto v = verify(r);
+    ctx->exact_outside_ok = false;
+    return v;
+}
+
+template<class T, class B> void ctor_kernel(char const* desc, Tags tags)
+{
+    if (!kernel_selected(desc)) return;
+    Rng rng(mix(env_seed(), hash_str(desc)));
+    std::vector<X> vals;
+    if constexpr (std::is_floating_point_v<B>) {
+        // floating sources are passed as (mantissa, exponent) pairs through two leaves
+    }
+    for (B b : lattice<B>()) vals.push_back(X::of(b));
+    for (int i = 0; i < 300; ++i) vals.push_back(X::of(rand_val<B>(rng)));
+    std::vector<std::vector<X>> ls{vals};
+    run_chain(desc, tags, ls, [&](X const* x) {
+        B b = c01::from_x<B>(x[0]);
+        auto t = construct<T>(b);
+        auto n = neg(t);
+        auto s = add(t, t);
+        (void)n; (void)s;
+    });
 }
 
 // leaf values of the declared range +-(2^D - 1) (as rep), boundary lattice + seeded random
